@@ -513,18 +513,30 @@ const giveUpAfter = 3 * time.Second           // after the watchdog
 func runCase(s spec) *result { return runOn(newInstance(s), s) }
 
 // hammer one instance with the request for the given time (no recording), see spec.dangerous
-func runStress(s spec) {
+// It returns the number of goroutines the loop left behind (0 when they all went away): the
+// loop stops as soon as more than a few hundred have piled up - a leak that does not go away
+// is an observation, not something to wait out - and waits at most 2 s for stragglers.
+func runStress(s spec) int {
 	in := newInstance(s)
 	rec := newRecorder(s)
 	rec.quiet = true
 	in.recs.Store("stress", rec)
+	base := runtime.NumGoroutine()
 	end := time.Now().Add(s.stress)
-	for time.Now().Before(end) {
-		for k := 0; k < 200; k++ {
+	for time.Now().Before(end) && runtime.NumGoroutine()-base < 400 {
+		for k := 0; k < 50; k++ {
 			in.p(context.Background(), &proxy.Request{Method: "GET", Path: "/x", Params: map[string]string{},
 				Headers: map[string][]string{caseHeader: {"stress"}}, Query: map[string][]string{}})
 		}
 	}
+	settle := time.Now().Add(2 * time.Second)
+	for runtime.NumGoroutine() > base && time.Now().Before(settle) {
+		time.Sleep(2 * time.Millisecond) // polling
+	}
+	if n := runtime.NumGoroutine() - base; n > 0 {
+		return n
+	}
+	return 0
 }
 
 // runOn sends one request through the instance
@@ -638,11 +650,11 @@ func luraGoroutines(ignore map[string]bool) []string {
 	buf := make([]byte, 1<<20)
 	for {
 		n := runtime.Stack(buf, true)
-		if n < len(buf) {
-			buf = buf[:n]
+		if n < len(buf) || len(buf) >= 64<<20 {
+			buf = buf[:n] // (a dump cut off at 64 MB still shows more than enough leftovers)
 			break
 		}
-		buf = make([]byte, 2*len(buf))
+		buf = make([]byte, 4*len(buf))
 	}
 	var ids []string
 	for _, blk := range strings.Split(string(buf), "\n\n") {
@@ -665,7 +677,7 @@ func quiesce(ignore map[string]bool, bound time.Duration) []string {
 	wait := 200 * time.Microsecond
 	for {
 		ids := luraGoroutines(ignore)
-		if len(ids) == 0 || (time.Now().After(deadline) && responsiveFor(time.Second)) || time.Now().After(deadline.Add(90*time.Second)) {
+		if len(ids) == 0 || (time.Now().After(deadline) && responsiveFor(time.Second)) || time.Now().After(deadline.Add(10*time.Second)) {
 			return ids
 		}
 		time.Sleep(wait) // polling, not synchronisation
@@ -701,7 +713,7 @@ func responsiveFor(d time.Duration) bool {
 }
 
 // patiently waits for the nominal duration d and then until the machine has been responsive
-// for a second (so that every timer that was due has had its effect), at most 90 s more;
+// for a second (so that every timer that was due has had its effect), at most 15 s more;
 // returns false when stop was closed first
 func patiently(d time.Duration, stop <-chan struct{}) bool {
 	t := time.NewTimer(d)
@@ -711,7 +723,7 @@ func patiently(d time.Duration, stop <-chan struct{}) bool {
 		return false
 	case <-t.C:
 	}
-	for k := 0; k < 900; k++ {
+	for k := 0; k < 150; k++ {
 		if responsiveFor(time.Second) {
 			return true
 		}
@@ -1115,9 +1127,15 @@ func childMain(cfg out.Config, specs []spec, from int, rn *runner) {
 		}
 		put(childLine{Start: idxs[lo:hi]})
 		var sub []spec
+		stressLeft := map[int]int{}
 		for _, i := range idxs[lo:hi] {
 			if specs[i].stress > 0 {
-				runStress(specs[i])
+				if n := runStress(specs[i]); n > 0 {
+					stressLeft[i] = n
+					for _, id := range luraGoroutines(rn.ignore) {
+						rn.ignore[id] = true // on record with this case; not to be counted again
+					}
+				}
 			}
 			sub = append(sub, specs[i])
 		}
@@ -1125,6 +1143,7 @@ func childMain(cfg out.Config, specs []spec, from int, rn *runner) {
 		for k, i := range idxs[lo:hi] {
 			i := i
 			o := rs[k].data()
+			o.Leaked += stressLeft[i]
 			put(childLine{Idx: &i, Obs: &o})
 		}
 		lo = hi
@@ -1150,10 +1169,19 @@ func runInChildren(cfg out.Config, idxs []int) (map[int]obsData, int) {
 		if cfg.Only >= 0 {
 			args = append(args, "--only", strconv.Itoa(cfg.Only))
 		}
-		cmd := exec.Command(os.Args[0], args...)
+		budget := 90 * time.Second
+		if cfg.Thorough() {
+			budget = 8 * time.Minute
+		}
+		cctx, ccancel := context.WithTimeout(context.Background(), budget)
+		cmd := exec.CommandContext(cctx, os.Args[0], args...)
 		var stderr bytes.Buffer
 		cmd.Stderr = &stderr
 		err := cmd.Run()
+		if cctx.Err() != nil && err != nil {
+			err = fmt.Errorf("killed after %s without finishing (%v)", budget, err)
+		}
+		ccancel()
 		inflight := map[int]bool{}
 		if b, e := os.ReadFile(filepath.Join(dir, "child.jsonl")); e == nil {
 			for _, line := range strings.Split(string(b), "\n") {
